@@ -284,8 +284,14 @@ def gen_int(rng, depth, env_names, st):
     return "(len lst)", lambda e: len(e["lst"])
 
 
+class UserBaseExc(BaseException):
+    """an exit that is not an Exception subclass, like SystemExit / KeyboardInterrupt / GeneratorExit"""
+
+
 RAISERS = [("(raise (ValueError \"boom\"))", ValueError), ("(/ 1 0)", ZeroDivisionError),
-           ("(no-such-function-c39 1)", NameError), ("(get lst 99)", IndexError)]
+           ("(no-such-function-c39 1)", NameError), ("(get lst 99)", IndexError),
+           ("(raise (SystemExit 3))", SystemExit), ("(raise (KeyboardInterrupt))", KeyboardInterrupt),
+           ("(raise (GeneratorExit))", GeneratorExit), ("(raise (UserBaseExc))", UserBaseExc)]
 COMPILE_ERRORS = ["(setv 1 2)", "(fn)", "(if)", "(defn)", "(setv x)", "(import 5)", "(for)", "(unquote x)"]
 
 
@@ -333,7 +339,8 @@ def oracle(chk):
         eval = staticmethod(hy.eval)
 
     def preset():
-        return {"a": rng.randint(0, 5), "b": "bee", "lst": [rng.randint(0, 9) for _ in range(3)]}
+        return {"a": rng.randint(0, 5), "b": "bee", "lst": [rng.randint(0, 9) for _ in range(3)],
+                "UserBaseExc": UserBaseExc}
 
     for s in range(n_sessions):
         gmode = rng.choice(["none", "dict", "dict", "dict"])
@@ -414,6 +421,7 @@ def oracle(chk):
             def call():
                 # the caller's frame for the no-dictionary case
                 a, b, lst = caller_env["a"], caller_env["b"], caller_env["lst"]  # noqa: F841
+                UserBaseExc = caller_env["UserBaseExc"]  # noqa: F841,N806
                 if G is None and L is None:
                     return hy.eval(model, **kw)
                 if L is None:
@@ -422,7 +430,7 @@ def oracle(chk):
             try:
                 got = call()
                 outcome = ("ok", got)
-            except Exception as e:  # noqa: BLE001
+            except BaseException as e:  # noqa: BLE001  SystemExit & co. are exits the property covers too
                 outcome = ("exc", e)
             desc = {"globals": gmode, "locals": lmode, "prior_hy": dict(prior_kind),
                     "source": src, "reader": "read-many" if use_many else "read", "module": module_arg,
